@@ -181,7 +181,7 @@ Qed.
 (* ProcessDNS: the same well-formed response a second time returns nothing and the table (as the
    reference sees it) is unchanged *)
 Theorem processDNS_idempotent t p lim rm :
-  wf p -> bytes_ok (arr p) -> (lim <= 256)%nat ->
+  wf p -> bytes_ok (arr p) -> (lim <= 255)%nat ->
   ref_message lim (view p) = Some rm -> msg_within lim (view p) ->
   let t1 := snd (processDNS t p) in
   fst (processDNS t1 p) = Ok None /\ ctable_of (snd (processDNS t1 p)) = ctable_of t1.
@@ -199,7 +199,7 @@ Section PerType.
 Variables (p buffer : slice) (off : nat) (e : dns_entry) (r : ref_rr) (nx : nat) (lim : nat).
 Hypothesis Hwf : wf p.
 Hypothesis Hok : bytes_ok (arr p).
-Hypothesis Hlim : (lim <= 256)%nat.
+Hypothesis Hlim : (lim <= 255)%nat.
 Hypothesis Hr : ref_rr_at lim (view p) off = Some (r, nx).
 Hypothesis Hd : (depth_at (view p) off <= 254)%nat.
 
@@ -226,14 +226,14 @@ Proof.
 Qed.
 
 Theorem rr_type_CNAME cls cn : rr_type r = 5 ->
-  ref_decode (view p) (rr_rdoff r) = Some (cls, cn) -> (wire_len cls <= lim)%nat ->
+  ref_decode (view p) (rr_rdoff r) = Some (cls, cn) -> name_ok lim cls = true ->
   (depth_at (view p) (rr_rdoff r) <= 254)%nat ->
   exists u e', step = (Ok (nx, u, e'), e') /\
     (cache_of_entry e', u) = learn_into (cache_of_entry e) (LCNAME (dotted (rr_owner r)) (dotted cls) (rr_ttl r)).
 Proof.
   intros T Hc Hw Hdc.
   assert (HL : learn lim (view p) r = LCNAME (dotted (rr_owner r)) (dotted cls) (rr_ttl r)).
-  { unfold learn. rewrite T, Hc. cbn. destruct (Nat.leb_spec (wire_len cls) lim); [reflexivity|lia]. }
+  { unfold learn. rewrite T, Hc, Hw. reflexivity. }
   destruct (rr_step_spec p buffer off e r nx lim Hwf Hok Hlim Hr Hd) as (u & e' & Hs & Hl & _);
     try (rewrite T; discriminate); auto.
   { rewrite HL. discriminate. }
@@ -242,16 +242,15 @@ Qed.
 
 Theorem rr_type_PTR ip pls pn : rr_type r = 12 ->
   reverse_v4 (rr_owner r) = Some ip ->
-  ref_decode (view p) (rr_rdoff r) = Some (pls, pn) -> (wire_len pls <= lim)%nat ->
+  ref_decode (view p) (rr_rdoff r) = Some (pls, pn) -> name_ok lim pls = true ->
   (depth_at (view p) (rr_rdoff r) <= 254)%nat ->
   exists u e', step = (Ok (nx, u, e'), e') /\
     (cache_of_entry e', u) = learn_into (cache_of_entry e) (LPTR (dotted pls) ip (rr_ttl r)).
 Proof.
   intros T Hrv Hc Hw Hdc.
   assert (HL : learn lim (view p) r = LPTR (dotted pls) ip (rr_ttl r)).
-  { unfold learn. rewrite T, Hrv, Hc. cbn. destruct (Nat.leb_spec (wire_len pls) lim); [reflexivity|lia]. }
+  { unfold learn. rewrite T, Hrv, Hc, Hw. reflexivity. }
   destruct (rr_step_spec p buffer off e r nx lim Hwf Hok Hlim Hr Hd) as (u & e' & Hs & Hl & _); auto.
-  { intros _. eapply reverse_v4_dotfree; eauto. }
   { rewrite HL. discriminate. }
   exists u, e'. split; [exact Hs|]. rewrite <- Hl, HL. reflexivity.
 Qed.
@@ -260,8 +259,7 @@ Qed.
    IPv4 reverse name: skipped — nothing is added, decoding continues behind RDATA *)
 Theorem rr_type_ignored :
   (rr_type r <> 1 /\ rr_type r <> 28 /\ rr_type r <> 5 /\ rr_type r <> 12) \/
-  (rr_type r = 12 /\ reverse_v4 (rr_owner r) = None /\ Forall dotfree (rr_owner r) /\
-   (depth_at (view p) (rr_rdoff r) <= 254)%nat) ->
+  (rr_type r = 12 /\ reverse_v4 (rr_owner r) = None /\ (depth_at (view p) (rr_rdoff r) <= 254)%nat) ->
   exists e', step = (Ok (nx, false, e'), e') /\ cache_of_entry e' = cache_of_entry e /\ de_name e' = de_name e.
 Proof.
   intros H.
@@ -271,8 +269,7 @@ Proof.
       destruct (N.eqb_spec (rr_type r) 5); [contradiction|]. destruct (N.eqb_spec (rr_type r) 12); [contradiction|]. reflexivity.
     - rewrite T, Hrv. reflexivity. }
   destruct (rr_step_spec p buffer off e r nx lim Hwf Hok Hlim Hr Hd) as (u & e' & Hs & Hl & Hn).
-  - intros [T|T]; destruct H as [(_ & _ & T5 & T12)|(_ & _ & _ & Hdd)]; try contradiction; exact Hdd.
-  - intros T. destruct H as [(_ & _ & _ & T12)|(_ & _ & Hdf & _)]; [contradiction|exact Hdf].
+  - intros [T|T]; destruct H as [(_ & _ & T5 & T12)|(_ & _ & Hdd)]; try contradiction; exact Hdd.
   - rewrite HL. discriminate.
   - rewrite HL in Hl. cbn [learn_into] in Hl. inversion Hl. subst u. exists e'. repeat split; auto; congruence.
 Qed.
